@@ -1,7 +1,15 @@
+pub mod powertrain;
 pub mod speed_profile;
 
 use crate::engine::Property;
 
 pub fn registry() -> Vec<&'static dyn Property> {
-    vec![&speed_profile::C02, &speed_profile::C13]
+    vec![
+        &powertrain::C01,
+        &speed_profile::C02,
+        &powertrain::C08,
+        &powertrain::C09,
+        &powertrain::C10,
+        &speed_profile::C13,
+    ]
 }
